@@ -8,6 +8,7 @@ pub mod gen;
 pub mod link;
 pub mod machine;
 pub mod model;
+pub mod paths;
 pub mod monitor;
 pub mod props;
 pub mod reflex;
